@@ -238,10 +238,10 @@ fn chain_logged(issuer_params: CertificateParams, ca_der: &[u8], origin: &str, c
 	out.event(
 		"Chain",
 		case,
-		json!({"origin": origin, "ca": facts, "stage": "validate", "akiRequested": true, "timeInside": true, "subjAlg": leaf_key.info.alg, "caAlg": ca_key.info.alg}),
+		json!({"origin": origin, "ca": facts, "stage": "validate", "akiRequested": true, "timeInside": true, "leafIsCa": false, "subjAlg": leaf_key.info.alg, "caAlg": ca_key.info.alg}),
 		"Ok",
 		"",
-		json!({"leafIssuerRaw": lv["issuerRaw"], "leafAki": aki, "openssl": o, "webpki": wv}),
+		json!({"leafIssuerRaw": lv["issuerRaw"], "leafSubjectRaw": lv["subjectRaw"], "leafAki": aki, "openssl": o, "webpki": wv}),
 	);
 }
 
@@ -342,6 +342,32 @@ pub fn run(cert_cases: &str, import_cases: &str, out_path: &str, tier: &str) {
 			};
 			// direct use of the rcgen-generated issuer
 			chain_logged(cert.params().clone(), cert.der(), "rcgen-direct", ca_key, leaf_key, &leaf_kid, &case_id, &mut out);
+			// an intermediate CA issued under it (it carries an authority key identifier that differs from its own subject key
+			// identifier), imported and used as issuer
+			if i % 2 == 0 {
+				let mut mp = issuer_desc(&json!([{"ty": "2.5.4.10", "kind": "utf8", "val": hex(b"chain intermediate")}, {"ty": "2.5.4.3", "kind": "utf8", "val": hex(format!("mid {}", i).as_bytes())}]), &leaf_kid);
+				mp["ku"] = json!([5, 6]);
+				mp["aki"] = json!(true);
+				mp["isCa"] = json!({"k": "Ca", "pl": {"k": "some", "n": 0}});
+				mp["serial"] = json!({"k": "given", "b": [0x44, i as u8]});
+				mp["nb"] = json!({"y": 2020, "mo": 1, "d": 1, "h": 0, "mi": 0, "s": 0, "ns": 0, "off": 0});
+				mp["na"] = json!({"y": 2030, "mo": 1, "d": 1, "h": 0, "mi": 0, "s": 0, "ns": 0, "off": 0});
+				if let Ok(mparams) = to_params(&mp) {
+					let before = mparams.clone();
+					let margs = json!({"grp": "chain-mid", "params": mp, "self": false, "pubSrc": "keypair", "subjectKey": key_args(leaf_key), "signerKey": key_args(ca_key),
+						"issuer": {"dn": ip["dn"], "kid": ip["kid"], "subjectRaw": ca_facts(cert.der()).map(|f| sval(&f, "subjectRaw")).unwrap_or_default()}, "signerFails": false});
+					if let Outcome::Ok(mid) = guarded(|| mparams.signed_by(&leaf_key.kp, &cert, &ca_key.kp)) {
+						out.event("Cert", &case_id, margs, "Ok", "", cert_obs(&mid, &before, ca_key));
+						let facts = ca_facts(mid.der()).unwrap_or(json!({}));
+						for v in ["der", "pem"] {
+							let args = json!({"origin": "rcgen", "via": v, "src": mp, "key": key_args(leaf_key), "cert": facts});
+							if let Some(p) = import_logged(mid.der(), v, &case_id, args, leaf_key, &mut out) {
+								chain_logged(p, mid.der(), &format!("rcgen-intermediate-imported-{}", v), leaf_key, ca_key, &leaf_kid, &case_id, &mut out);
+							}
+						}
+					}
+				}
+			}
 			let facts = ca_facts(cert.der()).unwrap_or(json!({}));
 			for v in ["der", "pem"] {
 				let args = json!({"origin": "rcgen", "via": v, "src": ip, "key": key_args(ca_key), "cert": facts});
